@@ -45,6 +45,7 @@ def run(ctx):
     # re-keyed rewards / feedbacks and the logged action are found through `<actions>.index(<action>)`, i.e. through the equality of the row views Densify / Repr produce
     c13.r18_equality_by_contents(ctx, rule="C10.R12")
     r13_conversions_keep_actions_apart(ctx)
+    r14_recoder_copies(ctx)
     # re-encoding must not rewrite the old interaction (Repr compares new['actions'] with old['actions'] to decide whether to rebuild the rewards)
     from . import c04
     c04.r3_copy_before_mutate(ctx, rule="C10.R8", only={"EncodeCatRows"})
@@ -68,6 +69,9 @@ def r13_conversions_keep_actions_apart(ctx, rule="C10.R13"):
                         continue   # a bound check on a position
                     n += 1
                     ok = isinstance(c_, ast.Compare) and len(c_.ops) == 1 and isinstance(c_.ops[0], ast.NotEq) and "0" in (unparse(c_.left), unparse(c_.comparators[0]))
+                    if isinstance(c_, ast.UnaryOp) and isinstance(c_.op, ast.Not) and isinstance(c_.operand, ast.Compare) and len(c_.operand.ops) == 1 and isinstance(c_.operand.ops[0], ast.Eq) \
+                            and "0" in (unparse(c_.operand.left), unparse(c_.operand.comparators[0])):
+                        ok = True   # `not v == 0`
                     ctx.ob(rule, EF, "Sparsify._make_sparse", comp, "a value is left out of the sparse form only if it equals the number 0", ok, detail={"filter": unparse(c_)})
     ctx.floor(rule, "value filters in Sparsify._make_sparse", n, 2)
     md = ctx.fn(EF, "Densify._make_dense")
@@ -77,6 +81,22 @@ def r13_conversions_keep_actions_apart(ctx, rule="C10.R13"):
         p_ = parent(c)
         ok = isinstance(p_, ast.BinOp) and isinstance(p_.op, ast.Mod) and p_.left is c and unparse(p_.right) == "self._n_feats"
         ctx.ob(rule, EF, "Densify._make_dense", p_ if isinstance(p_, ast.BinOp) else c, "a hashed feature lands at crc32 % n_feats (every position reachable for every n_feats)", ok, detail={"position": unparse(p_)[:80]})
+
+
+def r14_recoder_copies(ctx, rule="C10.R14"):
+    """Repr decides whether the reward / feedback functions must be rebuilt by comparing the NEW actions with the OLD ones: a re-encoder that writes into the old action
+    objects makes them equal, and functional rewards keep answering for the old representation."""
+    ctx.rule(rule, "EncodeCatRows hands out new objects for the rows it re-encodes: every return of its helper that makes a row writable is a copy / a freshly built container "
+                   "(copy(o), list(..), dict(..)), never the object it was given")
+    fn = ctx.fn("coba/pipes/rows.py", "EncodeCatRows._encode_collection")
+    helpers = [f for f in ast.walk(fn) if isinstance(f, ast.FunctionDef) and f is not fn and len(f.args.args) == 1
+               and any(isinstance(r, ast.Return) and isinstance(r.value, ast.Call) and call_name(r.value) in ("copy", "copy.copy") for r in ast.walk(f))]
+    ctx.floor(rule, "row-copy helpers in EncodeCatRows._encode_collection", len(helpers), 1)
+    for h in helpers:
+        P = h.args.args[0].arg
+        for r in [r for r in ast.walk(h) if isinstance(r, ast.Return) and r.value is not None]:
+            fresh = isinstance(r.value, ast.Call) and call_name(r.value) in ("copy", "copy.copy", "list", "dict", "tuple", "deepcopy", "copy.deepcopy")
+            ctx.ob(rule, "coba/pipes/rows.py", f"EncodeCatRows._encode_collection.{h.name}", r, "the writable row is a new object", fresh and not (isinstance(r.value, ast.Name) and r.value.id == P), detail={"returns": unparse(r.value)})
 
 
 def r9_batch_by_key(ctx, rule="C10.R9"):
@@ -540,6 +560,8 @@ def r4_finalize(ctx):
 
 
 CONTROLS = [
+    ("re-encoding writes into the dict rows it was given", "coba/pipes/rows.py", M.replace_stmt("EncodeCatRows._encode_collection", lambda st: isinstance(st, ast.If) and "isinstance(o, (list, dict))" in ast.unparse(st.test), "if isinstance(o, list): return copy(o)\nif isinstance(o, dict): return o"), "C10.R14"),
+    ("a sparse row equals every mapping it is a subset of", "coba/primitives.py", M.replace_expr("Sparse_.__eq__", "dict(self.items()) == dict(o.items())", "all((o[k] == v for k, v in self.items()))"), "C10.R12"),
     ("Sparsify drops every falsy value", EF, M.replace_expr("Sparsify._make_sparse", "v != 0", "v"), "C10.R13"),
     ("Densify masks the hash", EF, M.replace_expr("Densify._make_dense", "crc32(k.encode('ascii')) % self._n_feats", "crc32(k.encode('ascii')) & self._n_feats - 1"), "C10.R13"),
     ("views of one class over the same row compare equal unwalked", "coba/primitives.py", M.insert_before("Dense_.__eq__", lambda st: isinstance(st, ast.Try), "if o.__class__ is self.__class__ and o._row is self._row: return True"), "C10.R12"),
